@@ -68,6 +68,14 @@ Theorem globals_once_iff_dedup : forall dedupf,
      occ g_name gname_cmp (Some n) (export_globals_f true dedupf gs) = 1%nat) <-> dedupf = true.
 Proof. exact Proofs.globals_once_iff_dedup. Qed.
 
+(** [dedup_by] only merges ADJACENT entries with the same exact name: "exactly once" needs the
+    sort key's name component to be that same exact name (pinned: the key expressions of
+    export.rs are compared with the reviewed ones on every run); a case-folded key breaks it. *)
+Theorem globals_once_iff_sort_refines_dedup : forall exact,
+  (forall gs n, (exists g, In g gs /\ g_main g = true /\ g_typed g = true /\ g_name g = Some n) ->
+     occ g_name gname_cmp (Some n) (export_globals_n exact true true gs) = 1%nat) <-> exact = true.
+Proof. exact Proofs.globals_once_iff_sort_refines_dedup. Qed.
+
 (** The CONTENT of the index entry of a class declared in several files (super types,
     description) is merged per declaration in analysis order.  It does not depend on the hash-set
     order of the batch because [update_files_by_uri] sorts the file ids (flag regenerated from
